@@ -171,7 +171,7 @@ def positHandler : Handler := fun lhs rhs => do
       let ok := r < 2 ^ n && nearestB n es x r
       return { model := toHex m, specOk := ok,
                reason := if ok then "" else s!"exact {showRat x} rounds to {toHex (positRound n es x)}",
-               tag := op ++ "/" ++ roundTag n es x r }
+               tag := op ++ "/" ++ roundTag n es x r, canonical := r < 2 ^ n }
   | [ns, ess, op, as], [rs] =>
     let some n := parseNat ns | throw "nbits"
     let some es := parseNat ess | throw "es"
